@@ -2113,6 +2113,7 @@ def preprocess_file(
     pp_defs: dict = None,
     include_dirs: set = None,
     debug: bool = False,
+    include_stack: tuple = (),
 ):
     # Look for and mark excluded preprocessor paths in file
     # Initial implementation only looks for "if" and "ifndef" statements.
@@ -2192,6 +2193,8 @@ def preprocess_file(
         include_dirs = set()
     if file_path is not None:
         include_dirs.add(os.path.abspath(os.path.dirname(file_path)))
+        # Files being preprocessed, to detect circular includes
+        include_stack = (*include_stack, os.path.abspath(file_path))
     pp_skips = []
     pp_defines = []
     pp_stack = []
@@ -2349,7 +2352,10 @@ def preprocess_file(
                 if os.path.isfile(include_path_tmp):
                     include_path = os.path.abspath(include_path_tmp)
                     break
-            if include_path is not None:
+            if include_path in include_stack:
+                # A file that (transitively) includes itself
+                log.debug("%s !!! Circular include (%d)", line.strip(), i + 1)
+            elif include_path is not None:
                 try:
                     include_file = FortranFile(include_path)
                     err_string, _ = include_file.load_from_disk()
@@ -2361,6 +2367,7 @@ def preprocess_file(
                             pp_defs=defs_tmp,
                             include_dirs=include_dirs,
                             debug=debug,
+                            include_stack=include_stack,
                         )
                         log.debug("!!! Completed parsing include file\n")
 
